@@ -41,13 +41,22 @@ CLAIMS = {
             "other side's hash function and compared with its recorded hash; equal content is merged silently (no resolver call, no "
             "provider write, duplicate entry discarded); the resolver path is taken at most once and only for different content; "
             "the resolver wrapper (__safe_call_resolver) returns exactly the table of the resolver's answer kinds (keep one, keep both, "
-            "merged handle, pending, exception) and sync() dispatches an entry to exactly one handler. The application of the "
-            "resolver's answer (resolve_conflict body, conflict_rename) is not yet under contract.",
+            "merged handle, pending, exception) and sync() dispatches an entry to exactly one handler; applying a one-sided answer: the "
+            "other side is the loser, renamed aside with keep (never overwritten), overwritten by exactly one upload to its own object "
+            "without keep, and with no usable answer the local version is renamed aside (resolve_conflict, 4 resolver cases); the "
+            "conflict rename only ever renames the one object found at the path and returns that rename's id and path "
+            "(conflict_rename, while loop by arbitrary-iteration abstraction). The merged-data answer is not under contract.",
             "resolve_conflict and download_changed are stubbed (arbitrary outcomes); the user's resolver is an arbitrary callable."),
     "C06": ("proof", "Lemma-level proof. In one event-intake step the cursor is persisted at most once, as the last effect, under the "
             "cursor tag, after every event of the batch was processed; a stopped manager processes no further event; each processed "
             "event is one state update followed by one commit under the state lock; walk events that change nothing are ignored; the "
-            "SQLite back end returns exactly the stored bytes. 'Continues as if never stopped' over all histories is NOT proved.",
+            "SQLite back end returns exactly the stored bytes; the stored cursor is read once, under the tag of this side's root, and "
+            "a full walk is needed exactly when the cursor or the completed-walk record is missing (_validate_root); the first step "
+            "adopts and persists the provider's position or hands the stored one to the provider, and a rejected cursor without a "
+            "walk record requests a walk (_do_first_init); the walk record is written after the walk, as the last effect, and never "
+            "after a stop that left objects unwalked (_do_walk_if_needed); a stop with unprocessed events does not move the stored "
+            "cursor; loading the state from storage rebuilds the indexes and the pending set by the running engine's own rules "
+            "(found D11, fixed). 'Continues as if never stopped' over all histories is NOT proved.",
             "provider.events(), storage_update_data and state.update are contracts; sqlite3 is the relational model pyvc/sqlmodel.py."),
     "C07": ("proof", "Lemma-level proof of the effect ordering that makes every crash point recoverable: a sync step ends with exactly one "
             "storage commit as its last effect (none on temporary-error back-off, at most one otherwise); an event is applied and "
@@ -61,7 +70,9 @@ CLAIMS = {
             "_change_oid: after assigning an oid or a change flag every entry whose persisted fields changed -- including an entry "
             "ousted from the oid -- is in the dirty set, and a sync step commits. The entry codec (serialize / deserialize through a "
             "structure-preserving msgpack model) round-trips every persisted field; the commit loop writes every dirty entry and clears the set only on success; the "
-            "writer's decision table (create / update / delete / nothing) stores the serialisation of the entry as it is then. "
+            "writer's decision table (create / update / delete / nothing) stores the serialisation of the entry as it is then; "
+            "loading one stored row rebuilds the entry, indexes it under its ids and paths only, and makes it pending exactly "
+            "when a side with an id is flagged (found D11: the loader indexed None ids and revived id-less flags; fixed). "
             "One known finding (D6) on pending-set exactness.",
             "Indexes are open maps (touched bindings exact, rest arbitrary); entries found through an index are assumed to satisfy the index invariant."),
     "C09": ("proof", "Proof (sequential): create / update / delete / read of SqliteStorage against the abstract map (tag, id) -> bytes, "
@@ -78,8 +89,8 @@ CLAIMS = {
     "C11": ("proof", "Proof for the core writers on their real bodies: assigning an oid keeps 'oid slot -> entry' and the pending set exact "
             "for the entry, never loses a pending change of an ousted entry, and marks every changed entry dirty; setting a change "
             "flag keeps the pending set exact (one known finding, D6, isolated as its own obligation); a path change records the path "
-            "and the application's priority. Composite operations (update, split) are covered by these writers plus the frame "
-            "argument, which is not machine-checked.",
+            "and the application's priority; SyncState.finished is proved against the contract the manager lemmas use for it. "
+            "Composite operations (update, split) are covered by these writers plus the frame argument, which is not machine-checked.",
             "Indexes as open maps; index invariant assumed for entries found through an index; termination not proved (D5/D9 recursion observations in DESIGN.md)."),
     "C12": ("proof", "Proof of the path side (unbounded strings, all provider conventions and mixed pairs): translate decides 'inside the "
             "root' with the source provider's rules, yields nothing outside (incl. prefix siblings, lemma prefix_sibling_not_inside) "
@@ -103,7 +114,8 @@ CLAIMS = {
     "C15": ("proof", "Proof of the lock discipline as a permission contract checked over the whole repository on every run: every public "
             "entry point either establishes state.lock before any write of sync state or is listed as a known finding (6 public API "
             "methods write state without the lock); event application is proved to update and commit while holding the lock and to "
-            "release it. The second sentence (threaded executions converge) is NOT claimed.",
+            "release it; choosing the next entry and syncing it are proved to be one critical section under the lock, released even "
+            "when the sync raises (SyncManager.do). The second sentence (threaded executions converge) is NOT claimed.",
             "Call resolution by method name (over-approximation); RLock semantics assumed; cursor bookkeeping not counted as shared state."),
     "C16": ("exploration", "Bounded stand-in only (no contract within reach of the verifier expresses 'behaves like a reference tree for "
             "any call sequence' for the dict-of-everything MockFS): operation sequences on four mock flavours and the filesystem "
@@ -115,7 +127,9 @@ CLAIMS = {
             "(mark_changed); punting raises priority by one and defers each set change flag by exactly default_sleep/10 only when the "
             "priority becomes positive; a path change assigns the application's priority for the new path; SyncState.change hands out only "
             "a member of the pending set that is eligible (negative priority, or a change flag at least `age` old) and nothing eligible "
-            "sorts strictly before it by (priority, newest change time); it does not come back empty while an eligible entry exists.",
+            "sorts strictly before it by (priority, newest change time); it does not come back empty while an eligible entry exists; "
+            "one manager step asks the scheduler once with the manager's aging and syncs exactly the entry handed out, sleeps for the "
+            "aging time when nothing is eligible (SyncManager.do).",
             "time.time() = arbitrary positive real; prioritize = arbitrary function; sorted() = contract (ordered permutation, prefix facts)."),
     "C18": ("proof", "Proof. Back-off formula by induction over the failure count (base and step over reals); every iteration of "
             "Runnable.run from an arbitrary loop state: no exception of the work function escapes, the wait is the back-off law "
@@ -177,7 +191,8 @@ def main():
         "checks": checks,
         "not_applicable": na,
         "notes": "Fix commits in /repo: a6aeb33 (is_subpath IndexError), 4dc1302 (debug_sig TypeError), b97a12d (SqliteStorage.read), "
-                 "05f72d9 (join IndexError on win_paths), 66940cf (FileSystemProvider.hash_data). Known findings: known_findings.json. "
+                 "05f72d9 (join IndexError on win_paths), 66940cf (FileSystemProvider.hash_data), 8289cd3 (mock provider id of a re-created path), "
+                 "15825eb (state loader indexed None ids / revived id-less flags). Known findings: known_findings.json. "
                  "Seeded changes used to test the checks: seeded/.",
     }
     with open(os.path.join(HERE, "MANIFEST.json"), "w") as f:
